@@ -174,3 +174,30 @@ def insert_automatic_unnamed(e: int, k: int) -> bool:
     ga = doc.get_style(FAMILY, ra)
     gb = doc.get_style(FAMILY, rb)
     return done(ok and ga._Element__element is a._Element__element and gb._Element__element is b._Element__element)
+
+
+def insert_auto_interleaved(k: int, named_first: bool) -> bool:
+    """
+    pre: 1 <= k <= 4
+    post: _
+    """
+    # unnamed automatic insert; then a style arriving under a generated-looking name odfdo_auto_<k>
+    # by another route; then another unnamed insert: no two automatic styles share a name and each
+    # returned name finds its own style
+    doc = Doc()
+    a = Style(FAMILY)
+    b = Style(FAMILY)
+    c = _mk(FAMILY, "odfdo_auto_" + str(k))
+    if named_first:
+        rc = doc.insert_style(c, automatic=True)
+        ra = doc.insert_style(a, automatic=True)
+    else:
+        ra = doc.insert_style(a, automatic=True)
+        rc = doc.insert_style(c, automatic=True)
+    rb = doc.insert_style(b, automatic=True)
+    ok = unique_ok(doc) and rb != ra and rb != rc
+    ok = ok and doc.get_style(FAMILY, rb)._Element__element is b._Element__element
+    if ra != rc:
+        ok = ok and doc.get_style(FAMILY, ra)._Element__element is a._Element__element
+    ok = ok and doc.get_style(FAMILY, rc)._Element__element is c._Element__element
+    return done(ok)
